@@ -2,6 +2,8 @@
    changed textual fact breaks the obligations of the properties that own it and not those of every module that imports their lemmas. -/
 import CosetProofs.Ties.ContextRouting
 import CosetProofs.Ties.Budget.Mac
+import CosetProofs.Ties.Compare.Header
+import CosetProofs.Ties.Compare.Mac
 namespace Coset.Props.C04
 
 /-! ### ties to the source text (regenerated on every run, compared in the kernel with the transcribed tree) -/
@@ -14,5 +16,12 @@ theorem tie_context_routing : Coset.Gen.contextRouting = Coset.Pinned.contextRou
 theorem tie_budget_mac : Coset.Ties.budgetCovered "mac" Coset.Gen.decisionBudget Coset.Pinned.decisionBudget = true := Coset.Ties.budget_mac
 
 #print axioms tie_budget_mac
+
+/-! comparisons and integer literals of the modules this property is anchored in (properties.jsonl): none beyond the transcribed tree's -/
+theorem tie_compare_header : Coset.Ties.compareCovered "header" Coset.Gen.decisionBudget Coset.Pinned.decisionBudget = true := Coset.Ties.compare_header
+theorem tie_compare_mac : Coset.Ties.compareCovered "mac" Coset.Gen.decisionBudget Coset.Pinned.decisionBudget = true := Coset.Ties.compare_mac
+
+#print axioms tie_compare_header
+#print axioms tie_compare_mac
 
 end Coset.Props.C04
